@@ -164,7 +164,7 @@ package container
 // ---- bit sets (mode bv: machine integers are bit-vectors of their width) ----
 
 // bit(b, i): bit i of the set; i ranges over 0..32*len(b)
-//@ spec func bit(b BitSet, i int) bool = (b[i >> 5] & (uint32(1) << uint32(i & 31))) != 0
+//@ bvfun bit(b BitSet, i int) bool = (b[i >> 5] & (uint32(1) << uint32(i & 31))) != 0
 
 //@ func BitSet.Get
 //@   mode bv
@@ -238,3 +238,19 @@ package container
 //@   loop 1:
 //@     invariant start / 32 < index && index <= len(b)
 //@     invariant forall j in start..32*index :: bit(b, j)
+
+// Grow: at least size bits afterwards; the old bits keep their value, the new ones are clear.
+//@ func BitSet.Grow
+//@   mode bv
+//@   requires 0 <= size && size <= 1099511627776 && len(*b) <= 34359738368
+//@   modifies b, (*b)[0:cap(*b)]
+//@   ensures 32 * len(*b) >= size && len(*b) >= old(len(*b)) && len(*b) <= 34359738368 && (len(*b) == old(len(*b)) || 32 * len(*b) < size + 32)
+//@   ensures fresh(*b) || (samearray(*b, old(*b)) && cap(*b) == old(cap(*b)))
+//@   ensures forall j in 0..32*old(len(*b)) :: bit(*b, j) == old(bit(*b, j))
+//@   ensures forall j in 32*old(len(*b))..32*len(*b) :: !bit(*b, j)
+
+//@ func NewBitSet
+//@   mode bv
+//@   requires 0 <= size && size <= 1099511627776
+//@   ensures 32 * len(result) >= size && fresh(result)
+//@   ensures forall j in 0..32*len(result) :: !bit(result, j)
